@@ -9,13 +9,28 @@ L_PARTS = {'l', 'lstring', 'ltokens', 'lrow', 'lstr', 'ltable', 'lid'}
 R_PARTS = {'r', 'rstring', 'rtokens', 'rrow', 'rstr', 'rtable', 'rid'}
 
 
+MIDDLE_CATALOGUE = {
+    'cached_l_tokens': 'L', 'ordered_ltokens': 'L', 'ordered_rtokens': 'R',
+    'candset_l_key_attr': 'L', 'candset_r_key_attr': 'R',
+    'candset_l_key_attr_index': 'L', 'candset_r_key_attr_index': 'R',
+}
+
+
 def side_of_name(name):
+    """A name is sided when it *starts* with a side marker (l_..., r_..., ltable..., rstring, ...) or is one
+    of the few catalogued names that carry the marker inside. A marker in the middle of a new name
+    (e.g. `min_l_len`, a bound on the left length derived from the right one) does not make it sided."""
+    name = name.split('@')[0]
+    if name in MIDDLE_CATALOGUE:
+        return MIDDLE_CATALOGUE[name]
     parts = name.split('_')
-    l = any(p in L_PARTS or p.startswith('ltable') or p.startswith('ltokens') for p in parts)
-    r = any(p in R_PARTS or p.startswith('rtable') or p.startswith('rtokens') for p in parts)
-    if l and not r:
+    first = parts[0]
+    both = any(p in L_PARTS or p.startswith('ltable') for p in parts) and any(p in R_PARTS or p.startswith('rtable') for p in parts)
+    if both:
+        return None
+    if first in L_PARTS or first.startswith('ltable') or first.startswith('ltokens'):
         return 'L'
-    if r and not l:
+    if first in R_PARTS or first.startswith('rtable') or first.startswith('rtokens'):
         return 'R'
     return None
 
